@@ -94,6 +94,7 @@ def check(name, pids):
             env = dict(os.environ, VERIF_SRC=os.path.join(scratch, "src"))
             rc, out = sh("./check %s --tier quick" % pid, cwd=HERE, env=env, timeout=3600)
             lines = [l for l in out.splitlines() if l.startswith(("VIOLATION", "HARNESS-ERROR", pid + " tier", "KNOWN-FINDING", "  "))]
+            lines = [l for l in lines if not l.startswith("HARNESS-ERROR")] + [l for l in lines if l.startswith("HARNESS-ERROR")]   # VIOLATION lines first
             out_all[pid] = {"exit": rc, "summary": lines[:12]}
             print(pid, "exit", rc)
             for l in lines[:12]:
